@@ -83,7 +83,7 @@ def main(tier, replay=None):
     run.extra['tlc_cases'] = len(cases)
     rng = random.Random(run.seed)
     cases += [rand_case(rng) for _ in range(3000 if quick else 60000)]
-    obs = fncases.observe(lib, cases)
+    obs = fncases.observe(lib, cases, twins=True)
     so = suite.observations({'AND','OR','XOR','NOT','IF','IFS','SWITCH','ISNUMBER','ISTEXT','ISLOGICAL','ISBLANK','ISERROR','ISERR','ISNA','ISNONTEXT','ISEVEN','ISODD','TRUE','FALSE'}, len(obs) + 1)   # the same functions as the repository's own tests call them
     run.extra['calls_from_repository_tests'] = len(so)
     obs += so
